@@ -1464,3 +1464,48 @@ def rule_dtypenorm(ctx) -> RuleResult:
                        "the user's `dtype` is stored / inspected without np.dtype(...): a string or scalar-type dtype ('float32', np.float32) reaches code that "
                        "reads dtype.kind (xrdtypes._get_fill_value) and fails with AttributeError; the sibling entry point normalises it")
     return res
+
+
+# ---------------------------------------------------------------------------------------------
+# R-ABSENTMASK (C05, C07, C02): the count mask that delivers the user's fill is switched on for every source of absent output slots.
+# An output slot can exist without any member for three reasons (confirmed by reading groupby_reduce): the reduction keeps some label axes
+# (every kept slice has the full label set), the caller requested labels (expected_groups), or several groupers span the PRODUCT of their
+# labels (combinations that never occur).  With a user fill the implicit min_count must become 1 in all three cases, otherwise the slot shows
+# the reduction's identity (eager NaN, chunked 0 / -inf) and the fill is ignored.  The guard of the `min_count_ = 1` default is checked for
+# one leaf per reason.
+_ABSENT_REASONS = {
+    "partial-axis reduction": lambda t: "nax" in t and "ndim" in t,
+    "requested labels": lambda t: "provided_expected" in t or "expected_groups is not None" in t,
+    "several groupers (product grid)": lambda t: "nby" in t or "len(bys)" in t or "len(by)" in t or "factorize_early" in t,
+}
+
+
+def rule_absentmask(ctx) -> RuleResult:
+    res = RuleResult("R-ABSENTMASK", "the implicit count mask covers every source of absent output slots", min_instances=3)
+    f = ctx.prog.func("core.groupby_reduce")
+    site = None
+    for st in walk_own(f.node):
+        if isinstance(st, ast.If) and any(isinstance(a, (ast.Assign, ast.AnnAssign)) and "min_count" in norm(a.targets[0] if isinstance(a, ast.Assign) else a.target)
+                                          and isinstance(a.value, ast.Constant) and a.value.value == 1 for a in st.body):
+            site = st
+    if site is None:
+        raise AnalysisError("groupby_reduce: the default 'min_count_ = 1' branch was not found (anchor)")
+    multi = any(isinstance(c, ast.Call) and norm(c.func) == "_factorize_multiple" for c in ast.walk(f.node))
+    leaves = []
+    work = [site.test]
+    while work:
+        e = work.pop()
+        if isinstance(e, ast.BoolOp):
+            work.extend(e.values)
+        else:
+            leaves.append(norm(e))
+    for reason, pred in _ABSENT_REASONS.items():
+        if reason.startswith("several") and not multi:
+            continue
+        ok = any(pred(t) for t in leaves)
+        res.inst(f"groupby_reduce: default min_count guard '{norm(site.test)[:70]}' covers '{reason}': {ok}", f"reason|{reason}")
+        if not ok:
+            res.report(f"core.groupby_reduce|absent-slots-unmasked|{reason.split()[0]}", f.where(site), f.qualname,
+                       f"the guard '{norm(site.test)[:80]}' that turns the count mask on does not consider {reason}: such slots have no member, "
+                       "so without the mask they show the reduction's identity (eager NaN, chunked 0 or -inf for max) and the user's fill_value is ignored")
+    return res
